@@ -410,6 +410,11 @@ func (v *Verifier) step(st *State, b *ssa.BasicBlock, i int, in ssa.Instruction)
 		return true
 	case *ssa.ChangeType:
 		t := v.val(st, x.X)
+		if _, toIface := v.substT(x.Type()).Underlying().(*types.Interface); toIface && t.Sort != "Iface" {
+			// conversion of a type-parameter typed value to an interface: boxing
+			v.bind(st, x, v.box(st, t, x.X.Type()))
+			return true
+		}
 		if s := v.sortOf(x.Type()); s != t.Sort {
 			t = v.convStruct(t, x.X.Type(), x.Type())
 		}
